@@ -167,9 +167,12 @@ Scripts == <<
   <<Sub({20}), StemSub({2}), Sub({2}), StemSub({21}), Sub({16}), Blk({21}), Sub({17})>>,
   \* 11: an output created (16), spent (17) and created AGAIN (21) inside the public pool: jointly valid once cut through
   \*     (a block of the three is accepted), so 21 is admitted - and the set offered for mining must still assemble
-  <<Sub({16}), Sub({17}), Sub({21})>>
+  <<Sub({16}), Sub({17}), Sub({21})>>,
+  \* 12: the same three in a pool over capacity (2): the victim must not be 17, the spender that keeps the two creators
+  \*     of output 126 apart (without it the public pool no longer aggregates)
+  <<Sub({21}), Sub({17}), Sub({16}), Sub({20})>>
 >> \o (IF ShortReorg THEN <<
-  \* 12: a heavier but shorter fork lowers the height: the spend of coinbase 5 admitted at maturity is immature again
+  \* 13: a heavier but shorter fork lowers the height: the spend of coinbase 5 admitted at maturity is immature again
   <<Blk({}), Blk({}), Sub({14}), Sub({10}), Rg(2, <<{}>>), Sub({19}), Blk({}), Sub({14})>> >> ELSE <<>>)
 ScriptInit == Init /\ hist = <<>> /\ script \in 1..Len(Scripts)
 ScriptNext ==
